@@ -277,7 +277,10 @@ CHECKS = {
              "for single-file programs it is ALSO a kernel-checked theorem about the compiler model ESV.Comp (tied op for op to the real compiler by C03): compile_correct_F5 - for ALL "
              "programs of the decidable fragment F5Prog (all statement forms, macros in any definition order under any resolution order for which compileMacros succeeds, nested calls, "
              "labels private to each expansion, return; macro names and variables distinct, macro bodies mention only their own labels; 96.6 % of the generated single-file programs: "
-             "evidence in_F5) the source semantics in which a macro call IS the inlined body is behaviourally equivalent to the SSB machine on the compile result. Each program is validated twice: against the Lean semantics in which a macro call "
+             "evidence in_F5) the source semantics in which a macro call IS the inlined body is behaviourally equivalent to the SSB machine on the compile result; and for projects with imports "
+             "compile_correct_F6: the behaviour is that of the flattened project (Lean model of the import closure of _compile: imports resolved by the model of _resolve_imported_file, "
+             "recursion check, macros-only compilation of imported files, routines in imports rejected), tied to the real compiler by exact comparison of the real multi-file result with the "
+             "model's result on every generated layout (evidence in_F6, F6:flattened_model_result_equals_real). Each program is validated twice: against the Lean semantics in which a macro call "
              "IS the inlined body, and against the real compiler's output for the textually inlined program; all definition orders of a macro set must compile and be pairwise equivalent. "
              "The other two sentences are backed by kernel-checked theorems for ALL inputs about faithful models, and since /repo commit 0989cb8 (the repair this check proposed, "
              "now the code) the ordering statements hold IN FULL, without guard: the cycle check rejects exactly the cyclic call relations (cycle_detected_iff); the ordering loop never fails "
